@@ -128,3 +128,9 @@ package cty
 // Package-level values that other contracts rely on (established by the package initialisers).
 //@ global cty.NilVal (= $g (mk.cty.Value (mk.cty.Type nil.Any) nil.Any))
 //@ global cty.totallyUnknown (and ((_ is box<*cty.unknownType>) $g) (not (= (unbox<*cty.unknownType> $g) 0)) (= (cty.unknownType.refinement (select F.cty.unknownType (unbox<*cty.unknownType> $g))) nil.Any))
+//
+// RefineWith applies callbacks to a builder and finishes with NewValue, which re-applies the
+// original marks; type and marks are unchanged (assumed here; the builder itself is C05's subject).
+//@ func (cty.Value).RefineWith
+//@   trusted
+//@   ensures (and (= (vty result) (vty v)) (= (marks_of result) (marks_of v)) (wf_marks result))
